@@ -1,16 +1,435 @@
-/- Helper lemmas about `WW.Model.Distributor` (invariants of the epoch ledger). Core Lean only. -/
+/- Helper lemmas about `WW.Model.Distributor` (invariants of the multi-asset epoch ledger). Core Lean only. -/
 import WW.Model.Distributor
 namespace WW.Distributor
 
+/-! ### ledgers (`Vec<Asset>` as association lists) -/
+
+theorem sel_same (a x : Nat) : sel a a x = x := by simp [sel]
+theorem sel_ne {k a : Nat} (x : Nat) (h : k ≠ a) : sel k a x = 0 := by simp [sel, h]
+
+theorem amtOf_cons (a k x : Nat) (r : Ledger) : amtOf a ((k, x) :: r) = sel k a x + amtOf a r := rfl
+
+theorem amtOf_append (a : Nat) : ∀ (l m : Ledger), amtOf a (l ++ m) = amtOf a l + amtOf a m := by
+  intro l
+  induction l with
+  | nil => intro m; simp [amtOf]
+  | cons p l ih =>
+    intro m
+    obtain ⟨k, x⟩ := p
+    simp only [List.cons_append, amtOf_cons, ih m]
+    omega
+
+theorem hasKey_iff (k : Nat) : ∀ l : Ledger, hasKey k l = true ↔ k ∈ keys l := by
+  intro l
+  induction l with
+  | nil => simp [hasKey, keys]
+  | cons p l ih =>
+    obtain ⟨j, y⟩ := p
+    unfold hasKey
+    by_cases hj : j = k
+    · subst hj; simp [keys]
+    · rw [if_neg hj, ih]
+      simp only [keys, List.map_cons, List.mem_cons]
+      constructor
+      · intro h; exact Or.inr h
+      · intro h
+        cases h with
+        | inl h => exact absurd h.symm hj
+        | inr h => exact h
+
+theorem amtOf_of_not_mem (a : Nat) : ∀ l : Ledger, a ∉ keys l → amtOf a l = 0 := by
+  intro l
+  induction l with
+  | nil => intro _; rfl
+  | cons p l ih =>
+    obtain ⟨j, y⟩ := p
+    intro h
+    simp only [keys, List.map_cons, List.mem_cons, not_or] at h
+    rw [amtOf_cons, sel_ne y (fun e => h.1 e.symm), ih h.2]
+
+theorem keys_nil_iff (l : Ledger) : keys l = [] ↔ l = [] := by
+  cases l <;> simp [keys]
+
+theorem amtOf_inflowLedger (d a : Nat) (inflow : Option Nat) : amtOf a (inflowLedger d inflow) = sel d a (amt inflow) := by
+  cases inflow with
+  | none => simp [inflowLedger, amtOf, amt, sel]
+  | some x => simp [inflowLedger, amtOf, amt, sel]
+
+theorem nodup_inflowLedger (d : Nat) (inflow : Option Nat) : (keys (inflowLedger d inflow)).Nodup := by
+  cases inflow <;> simp [inflowLedger, keys]
+
+/-! ### `aggregate_assets` -/
+
+theorem bumpFirst_spec (k x : Nat) : ∀ (l l' : Ledger), bumpFirst k x l = .ok l' → hasKey k l = true →
+    keys l' = keys l ∧ ∀ a, amtOf a l' = amtOf a l + sel k a x := by
+  intro l
+  induction l with
+  | nil => intro l' _ hk; simp [hasKey] at hk
+  | cons p l ih =>
+    obtain ⟨j, y⟩ := p
+    intro l' h hk
+    unfold bumpFirst at h
+    by_cases hj : j = k
+    · rw [if_pos hj] at h
+      split at h
+      · injection h with h; subst h
+        refine ⟨rfl, fun a => ?_⟩
+        simp only [amtOf_cons]
+        subst hj
+        unfold sel
+        split <;> omega
+      · cases h
+    · rw [if_neg hj] at h
+      unfold hasKey at hk
+      rw [if_neg hj] at hk
+      cases hb : bumpFirst k x l with
+      | ok r' =>
+        rw [hb] at h; simp only at h
+        injection h with h; subst h
+        obtain ⟨i1, i2⟩ := ih r' hb hk
+        refine ⟨by simp only [keys, List.map_cons] at i1 ⊢; rw [i1], fun a => ?_⟩
+        simp only [amtOf_cons, i2 a]
+        omega
+      | err => rw [hb] at h; simp at h
+      | panic => rw [hb] at h; simp at h
+
+theorem aggOne_spec {l l' : Ledger} {k x : Nat} (h : aggOne l k x = .ok l') :
+    (∀ a, amtOf a l' = amtOf a l + sel k a x) ∧ ((keys l).Nodup → (keys l').Nodup) ∧
+    (∀ j, j ∈ keys l' ↔ j ∈ keys l ∨ j = k) := by
+  unfold aggOne at h
+  by_cases hk : hasKey k l = true
+  · rw [if_pos hk] at h
+    obtain ⟨i1, i2⟩ := bumpFirst_spec k x l l' h hk
+    refine ⟨i2, fun hn => by rw [i1]; exact hn, fun j => ?_⟩
+    rw [i1]
+    constructor
+    · intro hj; exact Or.inl hj
+    · intro hj
+      cases hj with
+      | inl hj => exact hj
+      | inr hj => subst hj; exact (hasKey_iff _ l).mp hk
+  · rw [if_neg hk] at h
+    injection h with h; subst h
+    have hnot : k ∉ keys l := fun hm => hk ((hasKey_iff k l).mpr hm)
+    refine ⟨fun a => ?_, fun hn => ?_, fun j => ?_⟩
+    · rw [amtOf_append]; simp only [amtOf]; omega
+    · simp only [keys, List.map_append, List.map_cons, List.map_nil]
+      rw [List.nodup_append]
+      refine ⟨hn, by simp, ?_⟩
+      intro a ha b hb
+      simp only [List.mem_cons, List.not_mem_nil, or_false] at hb
+      subst hb
+      intro hab; subst hab
+      exact hnot ha
+    · simp only [keys, List.map_append, List.map_cons, List.map_nil, List.mem_append, List.mem_cons,
+        List.not_mem_nil, or_false]
+
+theorem agg_spec : ∀ (m l l' : Ledger), agg l m = .ok l' →
+    (∀ a, amtOf a l' = amtOf a l + amtOf a m) ∧ ((keys l).Nodup → (keys l').Nodup) := by
+  intro m
+  induction m with
+  | nil =>
+    intro l l' h
+    unfold agg at h
+    injection h with h; subst h
+    exact ⟨fun a => by simp [amtOf], id⟩
+  | cons p m ih =>
+    obtain ⟨k, x⟩ := p
+    intro l l' h
+    unfold agg at h
+    cases ha : aggOne l k x with
+    | ok l1 =>
+      rw [ha] at h; simp only at h
+      obtain ⟨a1, a2, _⟩ := aggOne_spec ha
+      obtain ⟨i1, i2⟩ := ih l1 l' h
+      refine ⟨fun a => ?_, fun hn => i2 (a2 hn)⟩
+      rw [i1 a, a1 a, amtOf_cons]
+      omega
+    | err => rw [ha] at h; simp at h
+    | panic => rw [ha] at h; simp at h
+
+/-! ### `claim`: the loops over `available` / `claimed` -/
+
+theorem subAll_of_not_mem (k r : Nat) : ∀ l : Ledger, k ∉ keys l → subAll k r l = .ok l := by
+  intro l
+  induction l with
+  | nil => intro _; rfl
+  | cons p l ih =>
+    obtain ⟨j, y⟩ := p
+    intro h
+    simp only [keys, List.map_cons, List.mem_cons, not_or] at h
+    unfold subAll
+    rw [if_neg (fun e => h.1 e.symm), ih h.2]
+
+theorem subAll_spec (k r : Nat) : ∀ (l l' : Ledger), (keys l).Nodup → hasKey k l = true → subAll k r l = .ok l' →
+    keys l' = keys l ∧ ∀ a, amtOf a l' + sel k a r = amtOf a l := by
+  intro l
+  induction l with
+  | nil => intro l' _ hk _; simp [hasKey] at hk
+  | cons p l ih =>
+    obtain ⟨j, y⟩ := p
+    intro l' hn hk h
+    have hn' : (keys l).Nodup := by
+      simp only [keys, List.map_cons, List.nodup_cons] at hn; exact hn.2
+    have hjn : j ∉ keys l := by
+      simp only [keys, List.map_cons, List.nodup_cons] at hn; exact hn.1
+    unfold subAll at h
+    by_cases hj : j = k
+    · rw [if_pos hj] at h
+      split at h
+      · rename_i hle
+        rw [subAll_of_not_mem k r l (by rw [← hj]; exact hjn)] at h
+        simp only at h
+        injection h with h; subst h
+        refine ⟨rfl, fun a => ?_⟩
+        simp only [amtOf_cons]
+        subst hj
+        unfold sel
+        split <;> omega
+      · cases h
+    · rw [if_neg hj] at h
+      unfold hasKey at hk
+      rw [if_neg hj] at hk
+      cases hb : subAll k r l with
+      | ok t =>
+        rw [hb] at h; simp only at h
+        injection h with h; subst h
+        obtain ⟨i1, i2⟩ := ih t hn' hk hb
+        refine ⟨by simp only [keys, List.map_cons] at i1 ⊢; rw [i1], fun a => ?_⟩
+        simp only [amtOf_cons]
+        have := i2 a
+        omega
+      | err => rw [hb] at h; simp at h
+      | panic => rw [hb] at h; simp at h
+
+/-- `recordClaimed` on the two shapes `claimed` ever has: empty, or one entry -/
+theorem recordClaimed_nil (k r : Nat) : recordClaimed k r [] = .ok [(k, r)] := rfl
+
+theorem recordClaimed_single {k r k0 c : Nat} {cl' : Ledger} (h : recordClaimed k r [(k0, c)] = .ok cl') :
+    (k0 = k ∧ cl' = [(k0, c + r)]) ∨ (k0 ≠ k ∧ cl' = [(k0, c)]) := by
+  simp only [recordClaimed, addAll] at h
+  by_cases hk : k0 = k
+  · rw [if_pos hk] at h
+    split at h
+    · injection h with h; exact Or.inl ⟨hk, h.symm⟩
+    · cases h
+  · rw [if_neg hk] at h
+    injection h with h; exact Or.inr ⟨hk, h.symm⟩
+
+/-- what `claim` keeps true of one epoch's three ledgers: `claimed` is empty (nothing paid yet, `available`
+    still is `total`) or has exactly ONE entry, for an asset of `total`, and for that asset
+    `claimed + available = total`; for every asset `claimed + available ≤ total`. -/
+def ClaimedOk (tot av cl : Ledger) : Prop :=
+  ((cl = [] ∧ av = tot) ∨ (∃ k c, cl = [(k, c)] ∧ k ∈ keys tot ∧ c + amtOf k av = amtOf k tot)) ∧
+  ∀ a, amtOf a cl + amtOf a av ≤ amtOf a tot
+
+/-- an epoch holding at most one asset satisfies the ledger equation for every asset -/
+theorem claimedOk_single {tot av cl : Ledger} (h : ClaimedOk tot av cl) (h1 : tot.length ≤ 1) (a : Nat) :
+    amtOf a cl + amtOf a av = amtOf a tot := by
+  obtain ⟨hsh, hle⟩ := h
+  cases hsh with
+  | inl h0 => rw [h0.1, h0.2]; simp [amtOf]
+  | inr h0 =>
+    obtain ⟨k, c, hcl, hk, heq⟩ := h0
+    by_cases ha : k = a
+    · subst ha; rw [hcl]; simp only [amtOf, sel_same]; omega
+    · -- `tot` has one entry, for `k`; so nothing of `a`
+      have : amtOf a tot = 0 := by
+        apply amtOf_of_not_mem
+        intro hm
+        match tot, h1, hk, hm with
+        | [(j, y)], _, hk, hm =>
+          simp only [keys, List.map_cons, List.map_nil, List.mem_cons, List.not_mem_nil, or_false] at hk hm
+          exact ha (hk.trans hm.symm)
+      have := hle a
+      omega
+
+/-- the equation for the asset `claimed` records, and for every asset while nothing has been claimed -/
+theorem claimedOk_recorded {tot av cl : Ledger} (h : ClaimedOk tot av cl) (a : Nat) (ha : cl = [] ∨ a ∈ keys cl) :
+    amtOf a cl + amtOf a av = amtOf a tot := by
+  obtain ⟨hsh, _⟩ := h
+  cases hsh with
+  | inl h0 => rw [h0.1, h0.2]; simp [amtOf]
+  | inr h0 =>
+    obtain ⟨k, c, hcl, _, heq⟩ := h0
+    cases ha with
+    | inl h => rw [hcl] at h; cases h
+    | inr h =>
+      rw [hcl] at h
+      simp only [keys, List.map_cons, List.map_nil, List.mem_cons, List.not_mem_nil, or_false] at h
+      subst h; rw [hcl]; simp only [amtOf, sel_same]; omega
+
+theorem claimFee_spec {sh k t : Nat} {av cl acc av' cl' acc' : Ledger} {tot : Ledger}
+    (hn : (keys av).Nodup) (hk : k ∈ keys tot) (hc : ClaimedOk tot av cl)
+    (h : claimFee sh k t av cl acc = .ok (av', cl', acc')) :
+    keys av' = keys av ∧ ClaimedOk tot av' cl' ∧
+    (∀ a, amtOf a av' + amtOf a acc' = amtOf a av + amtOf a acc) ∧
+    (∀ a, amtOf a av' ≤ amtOf a av) ∧
+    (∀ a, amtOf a cl ≤ amtOf a cl') ∧
+    (∀ a, amtOf a cl' + amtOf a acc ≤ amtOf a cl + amtOf a acc') ∧
+    ((keys acc).Nodup → (keys acc').Nodup) := by
+  unfold claimFee at h
+  split at h
+  · cases h
+  · split at h
+    · injection h with h; injection h with h1 h; injection h with h2 h3
+      subst h1; subst h2; subst h3
+      exact ⟨rfl, hc, fun _ => rfl, fun _ => Nat.le_refl _, fun _ => Nat.le_refl _, fun _ => Nat.le_refl _, id⟩
+    · rename_i _ hr0
+      generalize hr : t * sh / E18 = r at h hr0
+      split at h
+      · cases h
+      · rename_i hhk
+        have hhas : hasKey k av = true := by
+          cases hh : hasKey k av with
+          | true => rfl
+          | false => exact absurd hh hhk
+        cases ha : aggOne acc k r with
+        | err => rw [ha] at h; simp at h
+        | panic => rw [ha] at h; simp at h
+        | ok acc1 =>
+          rw [ha] at h; simp only at h
+          cases hs : subAll k r av with
+          | err => rw [hs] at h; simp at h
+          | panic => rw [hs] at h; simp at h
+          | ok av1 =>
+            rw [hs] at h; simp only at h
+            cases hrc : recordClaimed k r cl with
+            | err => rw [hrc] at h; simp at h
+            | panic => rw [hrc] at h; simp at h
+            | ok cl1 =>
+              rw [hrc] at h; simp only at h
+              injection h with h; injection h with h1 h; injection h with h2 h3
+              subst h1; subst h2; subst h3
+              obtain ⟨a1, a2, _⟩ := aggOne_spec ha
+              obtain ⟨s1, s2⟩ := subAll_spec k r av av1 hn hhas hs
+              obtain ⟨hsh, hle⟩ := hc
+              -- the new `claimed`
+              have hcl : (amtOf k cl1 + amtOf k av1 = amtOf k tot ∧ ∃ c1, cl1 = [(k, c1)]) ∨
+                  (cl1 = cl ∧ ∃ k0 c, cl = [(k0, c)] ∧ k0 ≠ k) := by
+                cases hsh with
+                | inl h0 =>
+                  obtain ⟨hcl0, hav0⟩ := h0
+                  subst hcl0
+                  rw [recordClaimed_nil] at hrc
+                  injection hrc with hrc; subst hrc
+                  left
+                  refine ⟨?_, r, rfl⟩
+                  have := s2 k
+                  rw [sel_same] at this
+                  simp only [amtOf, sel_same]
+                  rw [← hav0]; omega
+                | inr h0 =>
+                  obtain ⟨k0, c, hcl0, hk0, heq⟩ := h0
+                  subst hcl0
+                  cases recordClaimed_single hrc with
+                  | inl hh =>
+                    obtain ⟨hkk, hcl1⟩ := hh
+                    subst hkk; subst hcl1
+                    left
+                    refine ⟨?_, c + r, rfl⟩
+                    have := s2 k0
+                    rw [sel_same] at this
+                    simp only [amtOf, sel_same]
+                    omega
+                  | inr hh =>
+                    exact Or.inr ⟨hh.2, k0, c, rfl, hh.1⟩
+              have hclle : ∀ a, amtOf a cl ≤ amtOf a cl1 ∧ amtOf a cl1 ≤ amtOf a cl + sel k a r := by
+                intro a
+                cases hsh with
+                | inl h0 =>
+                  obtain ⟨hcl0, _⟩ := h0
+                  subst hcl0
+                  rw [recordClaimed_nil] at hrc
+                  injection hrc with hrc; subst hrc
+                  simp only [amtOf]; omega
+                | inr h0 =>
+                  obtain ⟨k0, c, hcl0, _, _⟩ := h0
+                  subst hcl0
+                  cases recordClaimed_single hrc with
+                  | inl hh =>
+                    obtain ⟨hkk, hcl1⟩ := hh
+                    subst hkk; subst hcl1
+                    simp only [amtOf]
+                    unfold sel; split <;> omega
+                  | inr hh => rw [hh.2]; omega
+              refine ⟨s1, ⟨?_, fun a => ?_⟩, fun a => ?_, fun a => ?_, fun a => (hclle a).1, fun a => ?_, a2⟩
+              · right
+                cases hcl with
+                | inl hh =>
+                  obtain ⟨heq, c1, hc1⟩ := hh
+                  subst hc1
+                  refine ⟨k, c1, rfl, hk, ?_⟩
+                  simp only [amtOf, sel_same] at heq
+                  omega
+                | inr hh =>
+                  obtain ⟨hsame, k0, c, hcl0, hne⟩ := hh
+                  subst hsame
+                  cases hsh with
+                  | inl h0 => rw [h0.1] at hcl0; cases hcl0
+                  | inr h0 =>
+                    obtain ⟨k1, c1, hcl1, hk1, heq1⟩ := h0
+                    rw [hcl1] at hcl0
+                    injection hcl0 with hp _
+                    injection hp with hp1 hp2
+                    subst hp1; subst hp2
+                    refine ⟨k1, c1, hcl1, hk1, ?_⟩
+                    have := s2 k1
+                    rw [sel_ne r (Ne.symm hne)] at this
+                    omega
+              · have := hle a; have := s2 a; have := (hclle a).2; omega
+              · have := s2 a; have := a1 a; omega
+              · have := s2 a; omega
+              · have := (hclle a).2; have := a1 a; omega
+
+/-- the loop over `epoch.total`; `rest` is the part of `tot` still to be walked -/
+theorem claimFees_spec (sh : Nat) (tot : Ledger) : ∀ (rest av cl acc av' cl' acc' : Ledger),
+    (∀ p ∈ rest, p.1 ∈ keys tot) → (keys av).Nodup → ClaimedOk tot av cl →
+    claimFees sh rest av cl acc = .ok (av', cl', acc') →
+    keys av' = keys av ∧ ClaimedOk tot av' cl' ∧
+    (∀ a, amtOf a av' + amtOf a acc' = amtOf a av + amtOf a acc) ∧
+    (∀ a, amtOf a av' ≤ amtOf a av) ∧
+    (∀ a, amtOf a cl ≤ amtOf a cl') ∧
+    (∀ a, amtOf a cl' + amtOf a acc ≤ amtOf a cl + amtOf a acc') ∧
+    ((keys acc).Nodup → (keys acc').Nodup) := by
+  intro rest
+  induction rest with
+  | nil =>
+    intro av cl acc av' cl' acc' _ _ hc h
+    unfold claimFees at h
+    injection h with h; injection h with h1 h; injection h with h2 h3
+    subst h1; subst h2; subst h3
+    exact ⟨rfl, hc, fun _ => rfl, fun _ => Nat.le_refl _, fun _ => Nat.le_refl _, fun _ => Nat.le_refl _, id⟩
+  | cons p rest ih =>
+    obtain ⟨k, t⟩ := p
+    intro av cl acc av' cl' acc' hsub hn hc h
+    unfold claimFees at h
+    cases hf : claimFee sh k t av cl acc with
+    | err => rw [hf] at h; simp at h
+    | panic => rw [hf] at h; simp at h
+    | ok tr =>
+      obtain ⟨av1, cl1, acc1⟩ := tr
+      rw [hf] at h; simp only at h
+      obtain ⟨f1, f2, f3, f4, f5, f6, f7⟩ :=
+        claimFee_spec (tot := tot) hn (hsub (k, t) List.mem_cons_self) hc hf
+      obtain ⟨i1, i2, i3, i4, i5, i6, i7⟩ :=
+        ih av1 cl1 acc1 av' cl' acc' (fun p hp => hsub p (List.mem_cons_of_mem _ hp)) (by rw [f1]; exact hn) f2 h
+      refine ⟨by rw [i1, f1], i2, fun a => ?_, fun a => ?_, fun a => ?_, fun a => ?_, fun hh => i7 (f7 hh)⟩
+      · have := f3 a; have := i3 a; omega
+      · have := f4 a; have := i4 a; omega
+      · have := f5 a; have := i5 a; omega
+      · have := f6 a; have := i6 a; omega
+
 /-! ### predicates -/
 
-/-- the ledger equation of one epoch, required as long as its `available` vector is non-empty -/
-def LedgerOk (e : Epoch) : Prop := e.avail.isSome = true → amt e.claimed + amt e.avail = amt e.total
+/-- the ledger invariant of one epoch, required as long as its `available` vector is non-empty: every
+    asset is listed once in `available`, and `ClaimedOk` -/
+def LedgerOk (e : Epoch) : Prop := e.avail ≠ [] → (keys e.avail).Nodup ∧ ClaimedOk e.total e.avail e.claimed
 
 def AllLedger (es : List Epoch) : Prop := ∀ e ∈ es, LedgerOk e
 
 /-- everything outside the grace window (positions ≥ n of the descending list) has been emptied -/
-def OutsideEmpty (n : Nat) (es : List Epoch) : Prop := ∀ e ∈ es.drop n, e.avail = none
+def OutsideEmpty (n : Nat) (es : List Epoch) : Prop := ∀ e ∈ es.drop n, e.avail = []
 
 /-- ids strictly descending (newest first) -/
 def IdsDesc (es : List Epoch) : Prop := es.Pairwise fun a b => b.id < a.id
@@ -21,161 +440,152 @@ def Nominal (cfg : Cfg) (es : List Epoch) : Prop :=
 
 structure Inv (s : St) : Prop where
   ledger : AllLedger s.epochs
-  holds : sumAvail s.epochs ≤ s.bal
+  holds : ∀ a, sumAvail a s.epochs ≤ s.bal a
   grace : 1 ≤ s.grace
   outside : OutsideEmpty s.grace s.epochs
   desc : IdsDesc s.epochs
 
-theorem inv_init (g : Nat) (hg : 1 ≤ g) : Inv (St.init g) :=
+theorem inv_init (g d : Nat) (hg : 1 ≤ g) : Inv (St.init g d) :=
   { ledger := by intro e he; cases he
-    holds := by simp [St.init, sumAvail]
+    holds := by intro a; simp [St.init, sumAvail]
     grace := hg
     outside := by intro e he; simp [St.init] at he
     desc := List.Pairwise.nil }
 
 /-! ### `claimEpoch` -/
 
-theorem claimEpoch_spec {e e' : Epoch} {a : LairAns} {r : Nat} (h : claimEpoch e a = .ok (e', r)) :
-    e'.id = e.id ∧ e'.start = e.start ∧ e'.total = e.total ∧ amt e'.avail + r = amt e.avail ∧
-    amt e'.claimed = amt e.claimed + r ∧ (e'.avail = none ↔ e.avail = none) ∧ (r = 0 → e' = e) := by
+theorem claimEpoch_spec {e e' : Epoch} {an : LairAns} {acc acc' : Ledger} (hl : LedgerOk e) (hne : e.avail ≠ [])
+    (h : claimEpoch e an acc = .ok (e', acc')) :
+    e'.id = e.id ∧ e'.start = e.start ∧ e'.total = e.total ∧ LedgerOk e' ∧
+    (∀ a, amtOf a e'.avail + amtOf a acc' = amtOf a e.avail + amtOf a acc) ∧
+    (∀ a, amtOf a e.claimed ≤ amtOf a e'.claimed) ∧
+    (∀ a, amtOf a e'.claimed + amtOf a acc ≤ amtOf a e.claimed + amtOf a acc') ∧
+    (e.total.length ≤ 1 → ∀ a, amtOf a e'.claimed + amtOf a acc = amtOf a e.claimed + amtOf a acc') ∧
+    ((keys acc).Nodup → (keys acc').Nodup) ∧
+    (e'.avail = [] ↔ e.avail = []) := by
   unfold claimEpoch at h
-  cases a with
+  cases an with
   | err => simp at h
   | panic => simp at h
   | share sh =>
     simp only at h
-    cases ht : e.total with
-    | none =>
-      rw [ht] at h; simp only at h
+    cases hf : claimFees sh e.total e.avail e.claimed acc with
+    | err => rw [hf] at h; simp at h
+    | panic => rw [hf] at h; simp at h
+    | ok tr =>
+      obtain ⟨av1, cl1, acc1⟩ := tr
+      rw [hf] at h; simp only at h
       injection h with h; injection h with h1 h2
-      subst h1; subst h2; simp [ht]
-    | some t =>
-      rw [ht] at h; simp only at h
-      split at h
-      · cases h
-      · split at h
-        · injection h with h; injection h with h1 h2
-          subst h1; subst h2; simp [ht]
-        · cases hav : e.avail with
-          | none => rw [hav] at h; simp at h
-          | some av =>
-            rw [hav] at h; simp only at h
-            split at h
-            · cases h
-            · cases hc : e.claimed with
-              | none =>
-                rw [hc] at h; simp only at h
-                injection h with h; injection h with h1 h2
-                subst h1; subst h2
-                refine ⟨rfl, rfl, ?_, ?_, ?_, ?_, ?_⟩
-                · simp
-                · simp only [amt]; omega
-                · simp [amt]
-                · simp
-                · intro h0; omega
-              | some c =>
-                rw [hc] at h; simp only at h
-                split at h
-                · injection h with h; injection h with h1 h2
-                  subst h1; subst h2
-                  refine ⟨rfl, rfl, ?_, ?_, ?_, ?_, ?_⟩
-                  · simp
-                  · simp only [amt]; omega
-                  · simp [amt]
-                  · simp
-                  · intro h0; omega
-                · cases h
-
-theorem claimEpoch_ledger {e e' : Epoch} {a : LairAns} {r : Nat} (h : claimEpoch e a = .ok (e', r))
-    (hl : LedgerOk e) : LedgerOk e' := by
-  obtain ⟨_, _, ht, hav, hc, hiff, _⟩ := claimEpoch_spec h
-  intro hs
-  have : e.avail.isSome = true := by
-    cases hea : e.avail with
-    | none => have := hiff.mpr hea; rw [this] at hs; simp at hs
-    | some _ => rfl
-  have := hl this
-  rw [ht]; omega
+      subst h1; subst h2
+      obtain ⟨hn, hc⟩ := hl hne
+      obtain ⟨i1, i2, i3, i4, i5, i6, i7⟩ :=
+        claimFees_spec sh e.total e.total e.avail e.claimed acc av1 cl1 acc1
+          (fun p hp => List.mem_map.mpr ⟨p, hp, rfl⟩) hn hc hf
+      refine ⟨rfl, rfl, rfl, fun _ => ⟨by simp only; rw [i1]; exact hn, i2⟩, i3, i5, i6, ?_, i7, ?_⟩
+      · intro h1 a
+        have e1 := claimedOk_single hc h1 a
+        have e2 := claimedOk_single i2 h1 a
+        have := i3 a; have := i4 a
+        simp only
+        omega
+      · simp only
+        rw [← keys_nil_iff, i1, keys_nil_iff]
 
 /-! ### `claimWalk` -/
 
+theorem isClaimable_spec {b : Nat} {e : Epoch} (h : isClaimable b e = true) : b < e.id ∧ e.avail ≠ [] := by
+  unfold isClaimable at h
+  simp only [Bool.and_eq_true, decide_eq_true_eq, Bool.not_eq_true'] at h
+  refine ⟨h.1, fun h0 => ?_⟩
+  rw [h0] at h; simp at h
+
 theorem claimWalk_spec (ans : Nat → LairAns) (b : Nat) :
-    ∀ (n : Nat) (es : List Epoch) (acc : Nat) (es' : List Epoch) (t : Nat),
-      claimWalk ans b n es acc = .ok (es', t) →
-      acc ≤ t ∧ t + sumAvail es' = acc + sumAvail es ∧ sumClaimed es' + acc = sumClaimed es + t ∧
+    ∀ (n : Nat) (es : List Epoch) (acc : Ledger) (es' : List Epoch) (t : Ledger),
+      AllLedger es → claimWalk ans b n es acc = .ok (es', t) →
+      (∀ a, amtOf a t + sumAvail a es' = amtOf a acc + sumAvail a es) ∧
+      (∀ a, sumClaimed a es ≤ sumClaimed a es') ∧
+      (∀ a, sumClaimed a es' + amtOf a acc ≤ sumClaimed a es + amtOf a t) ∧
+      ((∀ e ∈ es, e.total.length ≤ 1) → ∀ a, sumClaimed a es' + amtOf a acc = sumClaimed a es + amtOf a t) ∧
       es'.map (·.id) = es.map (·.id) ∧ es'.map (·.start) = es.map (·.start) ∧
+      es'.map (·.total) = es.map (·.total) ∧
       es'.drop n = es.drop n ∧
-      (AllLedger es → AllLedger es') ∧
-      (∀ e' ∈ es', e' ∈ es ∨ (b < e'.id ∧ e'.id ∈ claimableIds b n es)) := by
+      AllLedger es' ∧
+      (∀ e' ∈ es', e' ∈ es ∨ (b < e'.id ∧ e'.id ∈ claimableIds b n es)) ∧
+      ((keys acc).Nodup → (keys t).Nodup) := by
   intro n
   induction n with
   | zero =>
-    intro es acc es' t h
+    intro es acc es' t hall h
     unfold claimWalk at h
     injection h with h; injection h with h1 h2
     subst h1; subst h2
-    refine ⟨Nat.le_refl _, rfl, rfl, rfl, rfl, rfl, id, fun e' he' => Or.inl he'⟩
+    exact ⟨fun _ => rfl, fun _ => Nat.le_refl _, fun _ => Nat.le_refl _, fun _ _ => rfl, rfl, rfl, rfl, rfl, hall,
+      fun e' he' => Or.inl he', id⟩
   | succ n ih =>
-    intro es acc es' t h
+    intro es acc es' t hall h
     cases es with
     | nil =>
       unfold claimWalk at h
       injection h with h; injection h with h1 h2
       subst h1; subst h2
-      refine ⟨Nat.le_refl _, rfl, rfl, rfl, rfl, rfl, id, fun e' he' => Or.inl he'⟩
+      exact ⟨fun _ => rfl, fun _ => Nat.le_refl _, fun _ => Nat.le_refl _, fun _ _ => rfl, rfl, rfl, rfl, rfl, hall,
+        fun e' he' => Or.inl he', id⟩
     | cons e es =>
+      have hall' : AllLedger es := fun x hx => hall x (List.mem_cons_of_mem _ hx)
       unfold claimWalk at h
       by_cases hc : isClaimable b e = true
       · rw [if_pos hc] at h
-        cases hce : claimEpoch e (ans e.id) with
+        obtain ⟨hbid, hne⟩ := isClaimable_spec hc
+        cases hce : claimEpoch e (ans e.id) acc with
         | err => rw [hce] at h; simp at h
         | panic => rw [hce] at h; simp at h
         | ok pr =>
-          obtain ⟨e1, r⟩ := pr
+          obtain ⟨e1, acc1⟩ := pr
           rw [hce] at h; simp only at h
-          split at h
-          · cases hw : claimWalk ans b n es (acc + r) with
-            | err => rw [hw] at h; simp at h
-            | panic => rw [hw] at h; simp at h
-            | ok pr2 =>
-              obtain ⟨es1, t1⟩ := pr2
-              rw [hw] at h; simp only at h
-              injection h with h; injection h with h1 h2
-              subst h1; subst h2
-              obtain ⟨i1, i2, i3, i4, i5, i6, i7, i8⟩ := ih es (acc + r) es1 t1 hw
-              obtain ⟨c1, c2, _, c4, c5, _, _⟩ := claimEpoch_spec hce
-              have hbid : b < e.id := by
-                unfold isClaimable at hc
-                simp only [Bool.and_eq_true, decide_eq_true_eq] at hc
-                exact hc.1
-              refine ⟨by omega, ?_, ?_, ?_, ?_, ?_, ?_, ?_⟩
-              · simp only [sumAvail]; omega
-              · simp only [sumClaimed]; omega
-              · simp only [List.map_cons, c1, i4]
-              · simp only [List.map_cons, c2, i5]
-              · simp only [List.drop_succ_cons]; exact i6
-              · intro hall e' he'
-                cases he' with
-                | head => exact claimEpoch_ledger hce (hall e (List.mem_cons_self))
-                | tail _ hm => exact i7 (fun x hx => hall x (List.mem_cons_of_mem _ hx)) e' hm
-              · intro e' he'
-                cases he' with
-                | head =>
+          cases hw : claimWalk ans b n es acc1 with
+          | err => rw [hw] at h; simp at h
+          | panic => rw [hw] at h; simp at h
+          | ok pr2 =>
+            obtain ⟨es1, t1⟩ := pr2
+            rw [hw] at h; simp only at h
+            injection h with h; injection h with h1 h2
+            subst h1; subst h2
+            obtain ⟨i1, i2, i3, i3', i4, i5, i5', i6, i7, i8, i9⟩ := ih es acc1 es1 t1 hall' hw
+            obtain ⟨c1, c2, c3, c4, c5, c6, c7, c8, c9, _⟩ :=
+              claimEpoch_spec (hall e List.mem_cons_self) hne hce
+            refine ⟨fun a => ?_, fun a => ?_, fun a => ?_, fun h1 a => ?_, ?_, ?_, ?_, ?_, ?_, ?_, fun hh => i9 (c9 hh)⟩
+            · simp only [sumAvail]; have := i1 a; have := c5 a; omega
+            · simp only [sumClaimed]; have := i2 a; have := c6 a; omega
+            · simp only [sumClaimed]; have := i3 a; have := c7 a; omega
+            · simp only [sumClaimed]
+              have := i3' (fun x hx => h1 x (List.mem_cons_of_mem _ hx)) a
+              have := c8 (h1 e List.mem_cons_self) a
+              omega
+            · simp only [List.map_cons, c1, i4]
+            · simp only [List.map_cons, c2, i5]
+            · simp only [List.map_cons, c3, i5']
+            · simp only [List.drop_succ_cons]; exact i6
+            · intro e' he'
+              cases he' with
+              | head => exact c4
+              | tail _ hm => exact i7 e' hm
+            · intro e' he'
+              cases he' with
+              | head =>
+                right
+                refine ⟨by rw [c1]; exact hbid, ?_⟩
+                unfold claimableIds
+                rw [if_pos hc, c1]
+                exact List.mem_cons_self
+              | tail _ hm =>
+                cases i8 e' hm with
+                | inl hin => exact Or.inl (List.mem_cons_of_mem _ hin)
+                | inr hr =>
                   right
-                  refine ⟨by rw [c1]; exact hbid, ?_⟩
+                  refine ⟨hr.1, ?_⟩
                   unfold claimableIds
-                  rw [if_pos hc, c1]
-                  exact List.mem_cons_self
-                | tail _ hm =>
-                  cases i8 e' hm with
-                  | inl hin => exact Or.inl (List.mem_cons_of_mem _ hin)
-                  | inr hr =>
-                    right
-                    refine ⟨hr.1, ?_⟩
-                    unfold claimableIds
-                    rw [if_pos hc]
-                    exact List.mem_cons_of_mem _ hr.2
-          · cases h
+                  rw [if_pos hc]
+                  exact List.mem_cons_of_mem _ hr.2
       · rw [if_neg hc] at h
         cases hw : claimWalk ans b n es acc with
         | err => rw [hw] at h; simp at h
@@ -185,20 +595,25 @@ theorem claimWalk_spec (ans : Nat → LairAns) (b : Nat) :
           rw [hw] at h; simp only at h
           injection h with h; injection h with h1 h2
           subst h1; subst h2
-          obtain ⟨i1, i2, i3, i4, i5, i6, i7, i8⟩ := ih es acc es1 t1 hw
-          refine ⟨i1, ?_, ?_, ?_, ?_, ?_, ?_, ?_⟩
-          · simp only [sumAvail]; omega
-          · simp only [sumClaimed]; omega
+          obtain ⟨i1, i2, i3, i3', i4, i5, i5', i6, i7, i8, i9⟩ := ih es acc es1 t1 hall' hw
+          refine ⟨fun a => ?_, fun a => ?_, fun a => ?_, fun h1 a => ?_, ?_, ?_, ?_, ?_, ?_, ?_, i9⟩
+          · simp only [sumAvail]; have := i1 a; omega
+          · simp only [sumClaimed]; have := i2 a; omega
+          · simp only [sumClaimed]; have := i3 a; omega
+          · simp only [sumClaimed]
+            have := i3' (fun x hx => h1 x (List.mem_cons_of_mem _ hx)) a
+            omega
           · simp only [List.map_cons, i4]
           · simp only [List.map_cons, i5]
+          · simp only [List.map_cons, i5']
           · simp only [List.drop_succ_cons]; exact i6
-          · intro hall e' he'
-            cases he' with
-            | head => exact hall e (List.mem_cons_self)
-            | tail _ hm => exact i7 (fun x hx => hall x (List.mem_cons_of_mem _ hx)) e' hm
           · intro e' he'
             cases he' with
-            | head => exact Or.inl (List.mem_cons_self)
+            | head => exact hall e List.mem_cons_self
+            | tail _ hm => exact i7 e' hm
+          · intro e' he'
+            cases he' with
+            | head => exact Or.inl List.mem_cons_self
             | tail _ hm =>
               cases i8 e' hm with
               | inl hin => exact Or.inl (List.mem_cons_of_mem _ hin)
@@ -269,19 +684,19 @@ theorem claimableIds_le_head (b : Nat) :
 
 /-! ### `takeOut` -/
 
-theorem takeOut_sum : ∀ (k : Nat) (es : List Epoch),
-    sumAvail (takeOut k es).1 + amt (takeOut k es).2 = sumAvail es := by
+theorem takeOut_sum (a : Nat) : ∀ (k : Nat) (es : List Epoch),
+    sumAvail a (takeOut k es).1 + amtOf a (takeOut k es).2 = sumAvail a es := by
   intro k
   induction k with
   | zero =>
     intro es
     cases es with
-    | nil => simp [takeOut, sumAvail, amt]
-    | cons e es => simp only [takeOut, sumAvail, amt]; omega
+    | nil => simp [takeOut, sumAvail, amtOf]
+    | cons e es => simp only [takeOut, sumAvail, amtOf]; omega
   | succ k ih =>
     intro es
     cases es with
-    | nil => simp [takeOut, sumAvail, amt]
+    | nil => simp [takeOut, sumAvail, amtOf]
     | cons e es =>
       simp only [takeOut, sumAvail]
       have := ih es
@@ -343,15 +758,23 @@ theorem takeOut_outside : ∀ (k : Nat) (es : List Epoch), OutsideEmpty (k + 1) 
       simp only [takeOut, List.drop_succ_cons] at hx
       exact ih es (by intro y hy; exact h y (by simpa using hy)) x hx
 
+/-- what the epoch at position `k` still has available (all assets of it); `[]` if there is none -/
+def availAt (es : List Epoch) (k : Nat) : Ledger :=
+  match es[k]? with
+  | some e => e.avail
+  | none => []
+
 /-- what is rolled over is exactly what the epoch at position `k` held -/
-theorem takeOut_rolled : ∀ (k : Nat) (es : List Epoch),
-    (takeOut k es).2 = (es[k]?).bind (·.avail) := by
+theorem takeOut_rolled : ∀ (k : Nat) (es : List Epoch), (takeOut k es).2 = availAt es k := by
   intro k
   induction k with
-  | zero => intro es; cases es <;> simp [takeOut]
+  | zero => intro es; cases es <;> simp [takeOut, availAt]
   | succ k ih => intro es; cases es with
-    | nil => simp [takeOut]
-    | cons e es => simp only [takeOut, List.getElem?_cons_succ]; exact ih es
+    | nil => simp [takeOut, availAt]
+    | cons e es =>
+      simp only [takeOut]
+      rw [ih es]
+      simp [availAt]
 
 /-- every other epoch is untouched; the one at position `k` keeps everything but `available` -/
 theorem takeOut_others : ∀ (k : Nat) (es : List Epoch) (j : Nat), j ≠ k →
@@ -377,29 +800,42 @@ theorem takeOut_others : ∀ (k : Nat) (es : List Epoch) (j : Nat), j ≠ k →
         simp only [takeOut, List.getElem?_cons_succ]
         exact ih es j (by omega)
 
-theorem aggOpt_amt {a b t : Option Nat} (h : aggOpt a b = .ok t) : amt t = amt a + amt b := by
-  cases a <;> cases b <;> simp only [aggOpt] at h
-  · injection h with h; subst h; rfl
-  · injection h with h; subst h; simp [amt]
-  · injection h with h; subst h; simp [amt]
-  · split at h
-    · injection h with h; subst h; simp [amt]
-    · cases h
+theorem takeOut_at : ∀ (k : Nat) (es : List Epoch), availAt (takeOut k es).1 k = [] := by
+  intro k
+  induction k with
+  | zero => intro es; cases es <;> simp [takeOut, availAt]
+  | succ k ih => intro es; cases es with
+    | nil => simp [takeOut, availAt]
+    | cons e es =>
+      have := ih es
+      simp only [takeOut, availAt, List.getElem?_cons_succ] at this ⊢
+      exact this
+
+/-- the epoch at position `k` keeps id, start, total and claimed -/
+theorem takeOut_keeps : ∀ (k : Nat) (es : List Epoch),
+    (takeOut k es).1.map (fun e => (e.id, e.start, e.total, e.claimed)) =
+      es.map (fun e => (e.id, e.start, e.total, e.claimed)) := by
+  intro k
+  induction k with
+  | zero => intro es; cases es <;> simp [takeOut]
+  | succ k ih => intro es; cases es with
+    | nil => simp [takeOut]
+    | cons e es => simp only [takeOut, List.map_cons, ih es]
 
 /-! ### `nextEpoch` / `receiveEpoch` -/
 
 theorem receiveEpoch_spec {s s' : St} {id start : Nat} {inflow : Option Nat}
     (h : receiveEpoch s id start inflow = .ok s') :
-    1 ≤ s.grace ∧ ∃ tot, aggOpt inflow (takeOut (s.grace - 1) s.epochs).2 = .ok tot ∧
-      s' = { s with epochs := { id := id, start := start, total := tot, avail := tot, claimed := none } ::
+    1 ≤ s.grace ∧ ∃ tot, agg (inflowLedger s.dist inflow) (takeOut (s.grace - 1) s.epochs).2 = .ok tot ∧
+      s' = { s with epochs := { id := id, start := start, total := tot, avail := tot, claimed := [] } ::
                                 (takeOut (s.grace - 1) s.epochs).1,
-                    bal := s.bal + amt inflow } := by
+                    bal := addAt s.bal s.dist (amt inflow) } := by
   unfold receiveEpoch at h
   split at h
   · cases h
   · rename_i hg
     simp only at h
-    cases ha : aggOpt inflow (takeOut (s.grace - 1) s.epochs).2 with
+    cases ha : agg (inflowLedger s.dist inflow) (takeOut (s.grace - 1) s.epochs).2 with
     | ok tot =>
       rw [ha] at h; simp only at h
       injection h with h
@@ -445,6 +881,12 @@ theorem current_id_max {s : St} (hd : IdsDesc s.epochs) : ∀ e ∈ s.epochs, e.
     | head => exact Nat.le_refl _
     | tail _ hm => exact Nat.le_of_lt ((List.pairwise_cons.mp hd).1 e hm)
 
+theorem addAt_apply (f : Nat → Nat) (i v a : Nat) : addAt f i v a = f a + sel i a v := by
+  unfold addAt sel
+  by_cases h : a = i
+  · subst h; simp
+  · rw [if_neg h, if_neg (fun e => h e.symm)]; omega
+
 /-! ### invariant preservation -/
 
 theorem newEpoch_inv {cfg : Cfg} {s s' : St} {now : Nat} {inflow : Option Nat} (hI : Inv s)
@@ -459,16 +901,23 @@ theorem newEpoch_inv {cfg : Cfg} {s s' : St} {now : Nat} {inflow : Option Nat} (
     obtain ⟨hg, tot, hagg, hs'⟩ := receiveEpoch_spec h
     obtain ⟨hid, _⟩ := nextEpoch_spec hn
     subst hs'
-    have hsum := takeOut_sum (s.grace - 1) s.epochs
-    have hamt := aggOpt_amt hagg
+    obtain ⟨hamt, hnd⟩ := agg_spec _ _ _ hagg
     refine { ledger := ?_, holds := ?_, grace := hI.grace, outside := ?_, desc := ?_ }
     · intro e he
       simp only at he
       cases he with
-      | head => intro _; simp [amt]
+      | head =>
+        intro _
+        refine ⟨hnd (nodup_inflowLedger _ _), Or.inl ⟨rfl, rfl⟩, fun a => ?_⟩
+        simp [amtOf]
       | tail _ hm => exact takeOut_ledger _ _ hI.ledger e hm
-    · simp only [sumAvail]
-      have := hI.holds
+    · intro a
+      simp only [sumAvail]
+      have h1 := takeOut_sum a (s.grace - 1) s.epochs
+      have h2 := hamt a
+      rw [amtOf_inflowLedger] at h2
+      have h3 := hI.holds a
+      rw [addAt_apply]
       omega
     · intro e he
       simp only at he
@@ -488,11 +937,32 @@ theorem newEpoch_inv {cfg : Cfg} {s s' : St} {now : Nat} {inflow : Option Nat} (
       have := current_id_max hI.desc x hx
       omega
 
-theorem claim_spec {s s' : St} {u : Nat} {view : Option Nat} {ans : Nat → LairAns} {paid : Nat}
+theorem payAll_spec : ∀ (l : Ledger) (b b' : Nat → Nat), payAll l b = .ok b' → ∀ a, b' a + amtOf a l = b a := by
+  intro l
+  induction l with
+  | nil => intro b b' h a; unfold payAll at h; injection h with h; subst h; simp [amtOf]
+  | cons p l ih =>
+    obtain ⟨k, x⟩ := p
+    intro b b' h a
+    unfold payAll at h
+    split at h
+    · rename_i hle
+      have := ih _ _ h a
+      simp only [amtOf_cons]
+      unfold subAt at this
+      unfold sel
+      by_cases hk : a = k
+      · subst hk; simp only [if_true] at this ⊢; omega
+      · rw [if_neg hk] at this
+        rw [if_neg (fun e => hk e.symm)]
+        omega
+    · cases h
+
+theorem claim_spec {s s' : St} {u : Nat} {view : Option Nat} {ans : Nat → LairAns} {paid : Ledger}
     (h : claim s u view ans = .ok (s', paid)) :
-    ∃ b top rest es', claimBound s u view = some b ∧ claimableIds b s.grace s.epochs = top :: rest ∧
-      claimWalk ans b s.grace s.epochs 0 = .ok (es', paid) ∧ paid ≤ s.bal ∧
-      s' = { s with epochs := es', last := setLast u top s.last, bal := s.bal - paid } := by
+    ∃ b top rest es' bal', claimBound s u view = some b ∧ claimableIds b s.grace s.epochs = top :: rest ∧
+      claimWalk ans b s.grace s.epochs [] = .ok (es', paid) ∧ payAll paid s.bal = .ok bal' ∧
+      s' = { s with epochs := es', last := setLast u top s.last, bal := bal' } := by
   unfold claim at h
   cases hb : claimBound s u view with
   | none => rw [hb] at h; simp at h
@@ -502,27 +972,33 @@ theorem claim_spec {s s' : St} {u : Nat} {view : Option Nat} {ans : Nat → Lair
     | nil => rw [hc] at h; simp at h
     | cons top rest =>
       rw [hc] at h; simp only at h
-      cases hw : claimWalk ans b s.grace s.epochs 0 with
+      cases hw : claimWalk ans b s.grace s.epochs [] with
       | err => rw [hw] at h; simp at h
       | panic => rw [hw] at h; simp at h
       | ok pr =>
         obtain ⟨es', t⟩ := pr
         rw [hw] at h; simp only at h
-        split at h
-        · rename_i hle
+        cases hp : payAll t s.bal with
+        | err => rw [hp] at h; simp at h
+        | panic => rw [hp] at h; simp at h
+        | ok bal' =>
+          rw [hp] at h; simp only at h
           injection h with h; injection h with h1 h2
           subst h2
-          exact ⟨b, top, rest, es', rfl, hc, hw, hle, h1.symm⟩
-        · cases h
+          exact ⟨b, top, rest, es', bal', rfl, hc, hw, hp, h1.symm⟩
 
-theorem claim_inv {s s' : St} {u : Nat} {view : Option Nat} {ans : Nat → LairAns} {paid : Nat} (hI : Inv s)
+theorem claim_inv {s s' : St} {u : Nat} {view : Option Nat} {ans : Nat → LairAns} {paid : Ledger} (hI : Inv s)
     (h : claim s u view ans = .ok (s', paid)) : Inv s' := by
-  obtain ⟨b, top, rest, es', _, _, hw, hle, hs'⟩ := claim_spec h
-  obtain ⟨_, i2, _, i4, _, i6, i7, _⟩ := claimWalk_spec ans b s.grace s.epochs 0 es' paid hw
+  obtain ⟨b, top, rest, es', bal', _, _, hw, hp, hs'⟩ := claim_spec h
+  obtain ⟨i1, _, _, _, i4, _, _, i6, i7, _, _⟩ := claimWalk_spec ans b s.grace s.epochs [] es' paid hI.ledger hw
   subst hs'
-  refine { ledger := i7 hI.ledger, holds := ?_, grace := hI.grace, outside := ?_, desc := idsDesc_of_map_eq i4 hI.desc }
-  · simp only
-    have := hI.holds
+  refine { ledger := i7, holds := ?_, grace := hI.grace, outside := ?_, desc := idsDesc_of_map_eq i4 hI.desc }
+  · intro a
+    simp only
+    have := hI.holds a
+    have := payAll_spec _ _ _ hp a
+    have := i1 a
+    simp only [amtOf] at this
     omega
   · intro e he
     simp only at he
@@ -540,6 +1016,15 @@ theorem updateGrace_spec {cfg : Cfg} {s s' : St} {sender g : Nat} (h : updateGra
       · cases h
       · injection h with h
         exact ⟨h.symm, by omega, by omega⟩
+
+theorem setDist_spec {cfg : Cfg} {s s' : St} {sender a : Nat} (h : setDist cfg s sender a = .ok s') :
+    s' = { s with dist := a } ∧ sender = cfg.owner := by
+  unfold setDist at h
+  split at h
+  · cases h
+  · rename_i hs
+    injection h with h
+    exact ⟨h.symm, Classical.not_not.mp hs⟩
 
 theorem drop_subset_of_le {α : Type} (l : List α) {m n : Nat} (h : m ≤ n) : ∀ x ∈ l.drop n, x ∈ l.drop m := by
   intro x hx
@@ -563,11 +1048,17 @@ theorem step_inv {cfg : Cfg} {s s' : St} {op : Op} (hI : Inv s) (h : step cfg s 
     subst hs'
     exact { ledger := hI.ledger, holds := hI.holds, grace := hg,
             outside := fun e he => hI.outside e (drop_subset_of_le _ hle e he), desc := hI.desc }
-  | gift a =>
+  | gift a x =>
     simp only [step] at h
     injection h with h; subst h
-    exact { ledger := hI.ledger, holds := by simp only [gift]; have := hI.holds; omega, grace := hI.grace,
-            outside := hI.outside, desc := hI.desc }
+    exact { ledger := hI.ledger,
+            holds := by intro b; simp only [gift]; rw [addAt_apply]; have := hI.holds b; omega,
+            grace := hI.grace, outside := hI.outside, desc := hI.desc }
+  | setDist sender a =>
+    simp only [step] at h
+    obtain ⟨hs', _⟩ := setDist_spec h
+    subst hs'
+    exact { ledger := hI.ledger, holds := hI.holds, grace := hI.grace, outside := hI.outside, desc := hI.desc }
 
 theorem reach_inv (cfg : Cfg) : ∀ (ops : List Op) (s : St), Inv s → Inv (reach cfg s ops) := by
   intro ops
@@ -634,7 +1125,7 @@ theorem step_lastGe {cfg : Cfg} {s s' : St} {op : Op} {u m : Nat} (_hI : Inv s) 
     | ok pr =>
       obtain ⟨s1, paid⟩ := pr
       rw [hc] at h; simp only at h; injection h with h; subst h
-      obtain ⟨b, top, rest, es', hb, hcl, hw, _, hs'⟩ := claim_spec hc
+      obtain ⟨b, top, rest, es', bal', hb, hcl, hw, _, hs'⟩ := claim_spec hc
       subst hs'
       by_cases hu : u = u2
       · subst hu
@@ -656,10 +1147,7 @@ theorem step_lastGe {cfg : Cfg} {s s' : St} {op : Op} {u m : Nat} (_hI : Inv s) 
               split at hi
               · rename_i hcy
                 cases hi with
-                | head =>
-                  unfold isClaimable at hcy
-                  simp only [Bool.and_eq_true, decide_eq_true_eq] at hcy
-                  exact hcy.1
+                | head => exact (isClaimable_spec hcy).1
                 | tail _ hmm => exact ihn l i hmm
               · exact ihn l i hi
         have := this _ _ top htop
@@ -669,9 +1157,13 @@ theorem step_lastGe {cfg : Cfg} {s s' : St} {op : Op} {u m : Nat} (_hI : Inv s) 
     simp only [step] at h
     obtain ⟨hs', _, _⟩ := updateGrace_spec h
     subst hs'; exact ⟨lc, hlc, hm⟩
-  | gift a =>
+  | gift a x =>
     simp only [step] at h
     injection h with h; subst h; exact ⟨lc, hlc, hm⟩
+  | setDist sender a =>
+    simp only [step] at h
+    obtain ⟨hs', _⟩ := setDist_spec h
+    subst hs'; exact ⟨lc, hlc, hm⟩
 
 theorem reach_lastGe (cfg : Cfg) {u m : Nat} : ∀ (ops : List Op) (s : St), Inv s → LastGe s u m →
     LastGe (reach cfg s ops) u m := by
@@ -752,14 +1244,6 @@ theorem newEpoch_nominal {cfg : Cfg} {s s' : St} {now : Nat} {inflow : Option Na
             | tail _ hzz => exact ihk l (fun w hw => hl w (List.mem_cons_of_mem _ hw)) z hzz
       exact this _ _ hN e hm
 
-theorem takeOut_at : ∀ (k : Nat) (es : List Epoch), ((takeOut k es).1[k]?).bind (·.avail) = none := by
-  intro k
-  induction k with
-  | zero => intro es; cases es <;> simp [takeOut]
-  | succ k ih => intro es; cases es with
-    | nil => simp [takeOut]
-    | cons e es => simp only [takeOut, List.getElem?_cons_succ]; exact ih es
-
 /-- `Nominal` only looks at ids and start times -/
 theorem nominal_of_maps (cfg : Cfg) : ∀ (es es' : List Epoch), es'.map (·.id) = es.map (·.id) →
     es'.map (·.start) = es.map (·.start) → Nominal cfg es → Nominal cfg es' := by
@@ -783,7 +1267,7 @@ theorem nominal_of_maps (cfg : Cfg) : ∀ (es es' : List Epoch), es'.map (·.id)
         rw [h1.1, h2.1]; exact this
       | tail _ hm => exact ih xs h1.2 h2.2 (fun w hw => hN w (List.mem_cons_of_mem _ hw)) e hm
 
-theorem step_nominal {cfg : Cfg} {s s' : St} {op : Op} (hN : Nominal cfg s.epochs)
+theorem step_nominal {cfg : Cfg} {s s' : St} {op : Op} (hI : Inv s) (hN : Nominal cfg s.epochs)
     (h : step cfg s op = .ok s') : Nominal cfg s'.epochs := by
   cases op with
   | newEpoch now inflow => exact newEpoch_nominal hN h
@@ -795,29 +1279,33 @@ theorem step_nominal {cfg : Cfg} {s s' : St} {op : Op} (hN : Nominal cfg s.epoch
     | ok pr =>
       obtain ⟨s1, paid⟩ := pr
       rw [hc] at h; simp only at h; injection h with h; subst h
-      obtain ⟨b, top, rest, es', _, _, hw, _, hs'⟩ := claim_spec hc
-      obtain ⟨_, _, _, i4, i5, _, _, _⟩ := claimWalk_spec ans b s.grace s.epochs 0 es' paid hw
+      obtain ⟨b, top, rest, es', bal', _, _, hw, _, hs'⟩ := claim_spec hc
+      obtain ⟨_, _, _, _, i4, i5, _, _, _, _, _⟩ := claimWalk_spec ans b s.grace s.epochs [] es' paid hI.ledger hw
       subst hs'
       exact nominal_of_maps cfg _ _ i4 i5 hN
   | grace sender g =>
     simp only [step] at h
     obtain ⟨hs', _, _⟩ := updateGrace_spec h
     subst hs'; exact hN
-  | gift a =>
+  | gift a x =>
     simp only [step] at h
     injection h with h; subst h; exact hN
+  | setDist sender a =>
+    simp only [step] at h
+    obtain ⟨hs', _⟩ := setDist_spec h
+    subst hs'; exact hN
 
-theorem reach_nominal (cfg : Cfg) : ∀ (ops : List Op) (s : St), Nominal cfg s.epochs →
+theorem reach_nominal (cfg : Cfg) : ∀ (ops : List Op) (s : St), Inv s → Nominal cfg s.epochs →
     Nominal cfg (reach cfg s ops).epochs := by
   intro ops
   induction ops with
-  | nil => intro s h; exact h
+  | nil => intro s _ h; exact h
   | cons op ops ih =>
-    intro s hN
+    intro s hI hN
     unfold reach
     cases hs : step cfg s op with
-    | ok s' => simp only; exact ih s' (step_nominal hN hs)
-    | err => simp only; exact ih s hN
-    | panic => simp only; exact ih s hN
+    | ok s' => simp only; exact ih s' (step_inv hI hs) (step_nominal hI hN hs)
+    | err => simp only; exact ih s hI hN
+    | panic => simp only; exact ih s hI hN
 
 end WW.Distributor
